@@ -272,6 +272,79 @@ theorem xml_no_markup_at_every_site (site : Site) (hsite : site.filtered = true)
 the site where filtering has to happen inside the cached callable, before the value is stored -/
 example : (Sites.Site.defLike ⟨false, true, true⟩).filtered = true := rfl
 
+/-! ## Entries that produce bytes; configurations that decide which filters reach an expression -/
+
+/-- regenerated from `DefTemplate.__init__`: a def taken with `get_def` carries its template's `output_encoding`
+and `encoding_errors` -/
+theorem def_template_inherits_output_settings :
+    "output_encoding".toList ∈ defTemplateInherited ∧ "encoding_errors".toList ∈ defTemplateInherited := by decide
+
+/-- regenerated from `runtime._render`: the bytes are produced by `FastEncodingBuffer(template.output_encoding,
+template.encoding_errors)` of the object rendered -/
+theorem render_buffer_uses_template_settings :
+    renderBufferArgs = ["template.output_encoding".toList, "template.encoding_errors".toList] := by decide
+
+open MakoModel.Filters.Sites in
+/-- hence every entry (`Template.render`, lookup templates, `get_def(..).render`) encodes with the settings of
+the template: `htmlentityreplace_total_and_faithful` applies to all of them alike -/
+theorem every_entry_uses_template_settings (parent : OutSettings) (e : Entry) :
+    entrySettings defTemplateInherited parent e = parent := by
+  have h := def_template_inherits_output_settings
+  cases e with
+  | template => rfl
+  | defTemplate =>
+    simp only [entrySettings, if_pos h.1, if_pos h.2]
+
+open MakoModel.Filters.Sites in
+/-- regenerated from `codegen.visitExpression`: the expression's own filters, the `<%page expression_filter>` and
+`default_filters` are all inspected when deciding whether the value goes through the filters -/
+theorem expression_filter_sources_complete :
+    sourceChecks exprFilterSources = ⟨true, true, true⟩ := by decide
+
+open MakoModel.Filters.Sites in
+/-- for every configuration (own filters × page filters × default_filters) the value written is the value sent
+through the effective chain of `create_filter_callable` - in particular never the raw value when the chain is not
+empty -/
+theorem expression_written_through_effective_chain {α} (apply : List Char → α → α)
+    (c : ExprConfig) (v : α) :
+    writeExpression (sourceChecks exprFilterSources) apply c v =
+      (effectiveChain c).foldl (fun t name => apply name t) v := by
+  rw [expression_filter_sources_complete]
+  unfold writeExpression
+  split
+  · rfl
+  · rename_i h
+    simp only [Bool.true_and, Bool.or_eq_true, Bool.not_eq_true', List.isEmpty_eq_false_iff, not_or,
+      ne_eq, Decidable.not_not] at h
+    rw [effectiveChain_nil c h.1.1 h.1.2 h.2]
+    rfl
+
+open MakoModel.Filters.Sites in
+/-- instance: with `default_filters=[]`, a `<%page expression_filter="f"/>` (`f` ≠ `n`) and a bare `${e}` the value
+is written through `f` -/
+theorem page_filter_reaches_bare_expression {α} (apply : List Char → α → α) (f : List Char)
+    (hf : f ≠ nName) (v : α) :
+    writeExpression (sourceChecks exprFilterSources) apply ⟨[], [f], []⟩ v = apply f v := by
+  rw [expression_written_through_effective_chain]
+  have hf' : ¬ f = ['n'] := hf
+  simp [effectiveChain, nName, hf']
+
+/-- probed at regen time: `markupsafe.escape` returns a `Markup` and leaves a `Markup` argument as it is,
+`Markup.strip()` stays a `Markup`, `str(Markup)` is plain - what `Sites.applyFilter` assumes -/
+theorem markup_kind_facts :
+    markupsafeIdempotentOnMarkup = true ∧ markupStripKeepsMarkup = true ∧ strOfMarkupIsPlain = true := by decide
+
+open MakoModel.Filters.Sites in
+/-- `h` reached twice (e.g. by `<%page expression_filter="h"/>` and `${e | h}`, or `default_filters=['h']`) escapes
+once: the result still decodes back to the input in one step, whatever `trim`s lie between -/
+theorem html_twice_is_once (v : PyText) :
+    applyFilter ['h'] (applyFilter ['h'] v) = applyFilter ['h'] v ∧
+    applyFilter ['h'] (applyFilter "trim".toList (applyFilter ['h'] v)) = applyFilter "trim".toList (applyFilter ['h'] v) := by
+  cases hm : v.markup <;> simp [applyFilter, hm]
+
+/-- the hypothesis `f ≠ nName` is satisfiable by the escaping filters -/
+example : "h".toList ≠ Sites.nName ∧ "x".toList ≠ Sites.nName := by decide
+
 /-! ## Non-vacuity: the hypotheses above are satisfiable by non-trivial instances -/
 
 /-- `hascii` holds for the ASCII codec (and the text has something to replace) -/
